@@ -20,7 +20,8 @@ RULE = (
     "The option matrix is enumerated. (A) backend level: config {metadata_path absent/same/different} x {memory_cache_mb absent/0.5/2} x {readonly absent/true/false} x explicit arguments "
     "{read_only None/True/False} x {memory_cache_mb None/1} x {path None/other} x construction {constructor with config, StorageBackend.create}; (B) cluster/environment level: storage type "
     "{filesystem, memory, null} x runner {absent, local, null} x readonly x cache (incl. fractional sizes) x metadata path x source {constructor objects, inline dict, JSON files, YAML file with jinja parameters} "
-    "x 1-3 repositories defining the same cluster name in every priority order, each also rebuilt from Environment.to_dict(). Oracle: differential on behaviour against the effective options computed "
+    "x 1-3 repositories defining the same cluster name in every priority order, each also rebuilt from Environment.to_dict(); (C) a live environment: every sequence of up to 4 (quick) / 5 (thorough) operations "
+    "{resolve cluster c, resolve d, prepend a repository defining c, prepend one defining d, append one defining c, append one defining c and d} after which each name must resolve to the first repository in the current priority order (or to nothing), also after a dump/rebuild. Oracle: differential on behaviour against the effective options computed "
     "by an independent model: files appear under the configured data/metadata roots (audit hook), a second read opens no file iff a cache of the configured size exists, memoize writes nothing and forget raises "
     "iff read-only, null/memory/filesystem storage and local/null runner behave as their type, get_cluster(name) is the first repository's cluster or None, the environment rebuilt from its dump passes the same probes "
     "on the same paths. Non-trivial = point with >= 2 options set and a source other than the constructor; distinct by matrix point."
@@ -334,6 +335,104 @@ def run_b(case, scratch):
         env.rm(d)
 
 
+# ------------------------------------------------------------------------------------------
+# part C: a live environment whose repository list changes between look-ups
+# ------------------------------------------------------------------------------------------
+
+C_NAMES = ["c", "d"]
+
+
+def run_c(case, scratch):
+    """case["ops"]: ["resolve", name] | ["prepend", {name: dirtag}] | ["append", {name: dirtag}]; model = list of repositories"""
+    out = core.Outcome()
+    d = env.fresh_dir(scratch, "c18c-")
+    try:
+        problems = []
+        model = []   # [{cluster name: dirtag}] in priority order
+        n = [0]
+
+        def mkrepo(clusters):
+            n[0] += 1
+            return m.ConfigurationRepository(name="live%d" % n[0], clusters={
+                cn: m.FunctionCluster(name=cn, storage=FilesystemStorageBackend(path=os.path.join(d, tag, "data")))
+                for cn, tag in clusters.items()})
+
+        def resolve(e, name, label, parg):
+            winner = next((r[name] for r in model if name in r), None)
+            cl = e.get_cluster(name)
+            if winner is None:
+                if cl is not None:
+                    problems.append(("phantom-cluster", "%s: get_cluster(%r) returned a cluster no repository defines" % (label, name)))
+                return
+            if cl is None:
+                problems.append(("cluster-missing", "%s: get_cluster(%r) is None although a repository defines it" % (label, name)))
+                return
+            got = os.path.abspath(cl.storage.to_dict().get("path", ""))
+            want = os.path.abspath(os.path.join(d, winner, "data"))
+            if got != want:
+                problems.append(("wrong-repository-wins", "%s: get_cluster(%r) resolves to the cluster stored under %s; first repository in priority order that defines it stores under %s" % (
+                    label, name, os.path.relpath(got, d), os.path.relpath(want, d))))
+                return
+            probe_storage(cl.storage, {"type": "filesystem", "data": want, "meta": want, "cache_mb": None, "readonly": False, "probe_arg": parg},
+                          problems, "%s, cluster %s" % (label, name))
+        try:
+            first = case["initial"]
+            model.append(dict(first))
+            e = m.Environment(name="verif-live", base_dir=d, repos=[mkrepo(first)])
+            for i, op in enumerate(case["ops"]):
+                label = "after %r" % (case["ops"][:i + 1],)
+                if op[0] == "resolve":
+                    resolve(e, op[1], label, i)
+                elif op[0] == "prepend":
+                    e.prepend_repo(mkrepo(op[1]))
+                    model.insert(0, dict(op[1]))
+                else:
+                    e.append_repo(mkrepo(op[1]))
+                    model.append(dict(op[1]))
+                if problems:
+                    break
+            if not problems:
+                for name in C_NAMES + ["no-such-cluster"]:
+                    resolve(e, name, "at the end of %r" % (case["ops"],), 100)
+                e2 = m.Environment(json.loads(json.dumps(e.to_dict())))
+                for name in C_NAMES:
+                    resolve(e2, name, "environment rebuilt from to_dict() at the end of %r" % (case["ops"],), 101)
+        except Exception as ex_:
+            sig = lib_exception_signature(ex_)
+            if sig is None:
+                raise
+            out.violation("live environment raised %r" % (ex_,), symptom="exception", **sig)
+        for sym, msg in problems:
+            out.violation(msg, symptom=sym, part="C", rebuilt="rebuilt" in msg)
+        kinds = [op[0] for op in case["ops"]]
+        out.nontrivial = any(k in ("prepend", "append") for k in kinds[1:]) and "resolve" in kinds
+        out.labels = ["C:live-environment"] + sorted({"C:" + k for k in kinds}) + \
+            (["C:resolve-then-prepend-same-name"] if any(kinds[i] == "resolve" and any(o[0] == "prepend" and case["ops"][i][1] in o[1] for o in case["ops"][i + 1:]) for i in range(len(kinds))) else [])
+        return out
+    finally:
+        env.rm(d)
+
+
+def points_c(max_len):
+    """all op sequences up to max_len over: resolve c / resolve d / prepend {c} / prepend {d} / append {c} / append {c,d}"""
+    tags = itertools.count()
+    alphabet = [("resolve", "c"), ("resolve", "d"), ("prepend", ("c",)), ("prepend", ("d",)), ("append", ("c",)), ("append", ("c", "d"))]
+    for initial in (("c",), ("c", "d")):
+        for n in range(1, max_len + 1):
+            for seq in itertools.product(alphabet, repeat=n):
+                if not any(o[0] == "resolve" for o in seq):
+                    continue
+                k = 0
+                ops = []
+                for o in seq:
+                    if o[0] == "resolve":
+                        ops.append(["resolve", o[1]])
+                    else:
+                        k += 1
+                        ops.append([o[0], {cn: "r%d_%s" % (k, cn) for cn in o[1]}])
+                yield {"part": "C", "initial": {cn: "r0_%s" % cn for cn in initial}, "ops": ops}
+
+
 def points_b(thorough):
     specs = []
     for typ, runner, ro, cache, meta in itertools.product(
@@ -364,7 +463,7 @@ def points_b(thorough):
 
 
 def execute(case, scratch):
-    out = run_a(case, scratch) if case["part"] == "A" else run_b(case, scratch)
+    out = run_a(case, scratch) if case["part"] == "A" else (run_c(case, scratch) if case["part"] == "C" else run_b(case, scratch))
     out.nt_key = case
     return out
 
@@ -377,7 +476,7 @@ def run_shard(ctx):
     stats = core.Stats()
     thorough = ctx.tier == "thorough"
     ex = lambda c: execute(c, ctx.scratch)  # noqa: E731
-    pts = list(points_a()) + list(points_b(thorough))
+    pts = list(points_a()) + list(points_b(thorough)) + list(points_c(5 if thorough else 4))
     complete = core.enum_search(pts, ex, stats, findings=ctx.findings, shard=ctx.shard, nshards=ctx.nshards,
                                 deadline_s=(ctx.deadline - time.time()) if ctx.deadline else None)
     stats.exhaustive = bool(complete)
